@@ -5,11 +5,11 @@ From OIDC Require Import Lib C05_Model C05_spec C05_base_proofs.
 Lemma token_success_justified_RLegacy : forall i,
   i_router i = RLegacy ->
   i_endpoint i = EToken -> known_gap i = false -> names_other (i_pres i) = false ->
-  success (model i) = true -> token_justified (i_cfg i) (i_reg i) (i_pres i) (i_grant i) = true.
+  success (model i) = true -> token_justified_lax (i_cfg i) (i_reg i) (i_pres i) (i_grant i) = true.
 Proof.
-  intro i; open_input i; cbn [i_endpoint i_cfg i_reg i_pres i_grant i_router i_pl i_prev].
+  intro i; open_input i; cbn [i_endpoint i_cfg i_reg i_pres i_grant i_router i_pl i_prev i_art].
   all: intros -> -> Hgap Hno.
-  all: unfold model, known_gap in *; cbn [i_endpoint i_cfg i_reg i_pres i_grant i_router i_pl i_prev] in *.
+  all: unfold model, known_gap in *; cbn [i_endpoint i_cfg i_reg i_pres i_grant i_router i_pl i_prev i_art] in *.
   all: destruct p as [| |[] ?| |[]|[]|[]| | | |[] []|?|?|?|?|?|[] []|?]; try discriminate Hno; clear Hno.
   all: destruct g; cbn in Hgap |- *; destruct meth; cbn in Hgap |- *; split_goal.
 Qed.
